@@ -183,6 +183,224 @@ theorem first_pays_table_exact {p : Params} {h : Nat} {hasTx : Bool} {outs : Lis
   intro k
   rw [← (first_pays_table hok hh hn hz).1 k, Nat.mod_eq_of_lt (hsum k)]
 
+/-! ### totals: a first-of-epoch coinbase creates exactly the table's total -/
+
+def totalOut : List COut → Nat
+  | [] => 0
+  | o :: t => o.amount + totalOut t
+
+def totalTable : KMap → Nat
+  | [] => 0
+  | e :: t => e.2 + totalTable t
+
+def sumMap (f : Key → Nat) : List Key → Nat
+  | [] => 0
+  | k :: t => f k + sumMap f t
+
+theorem sumMap_add (f g : Key → Nat) : ∀ ks, sumMap (fun k => f k + g k) ks = sumMap f ks + sumMap g ks
+  | [] => rfl
+  | k :: t => by simp only [sumMap, sumMap_add f g t]; omega
+
+theorem sumMap_congr {f g : Key → Nat} : ∀ {ks : List Key}, (∀ k ∈ ks, f k = g k) → sumMap f ks = sumMap g ks
+  | [], _ => rfl
+  | k :: t, h => by
+    simp only [sumMap]
+    rw [h k (by simp), sumMap_congr (fun k' hk' => h k' (List.mem_cons_of_mem _ hk'))]
+
+theorem sumMap_indicator (x : Key) (a : Nat) : ∀ {ks : List Key}, ks.Nodup →
+    sumMap (fun k => if x = k then a else 0) ks = if x ∈ ks then a else 0
+  | [], _ => by simp [sumMap]
+  | k :: t, hn => by
+    rw [List.nodup_cons] at hn
+    simp only [sumMap, sumMap_indicator x a hn.2, List.mem_cons]
+    by_cases e : x = k
+    · subst e; simp [hn.1]
+    · simp [e]
+
+/-- paid to programs of `ks` / to anything else (or skipped), from position `i` on -/
+def paidIn (ks : List Key) : Nat → List COut → Nat
+  | _, [] => 0
+  | i, o :: t => (if (i = 0 ∧ o.amount = 0) ∨ o.program ∉ ks then 0 else o.amount) + paidIn ks (i + 1) t
+
+def unpaid (ks : List Key) : Nat → List COut → Nat
+  | _, [] => 0
+  | i, o :: t => (if (i = 0 ∧ o.amount = 0) ∨ o.program ∉ ks then o.amount else 0) + unpaid ks (i + 1) t
+
+theorem totalOut_split (ks : List Key) : ∀ (outs : List COut) (i : Nat), totalOut outs = paidIn ks i outs + unpaid ks i outs
+  | [], _ => rfl
+  | o :: t, i => by
+    simp only [totalOut, paidIn, unpaid, totalOut_split ks t (i + 1)]
+    split <;> omega
+
+theorem sum_paid {ks : List Key} (hn : ks.Nodup) : ∀ (outs : List COut) (i : Nat),
+    sumMap (fun k => paid k i outs) ks = paidIn ks i outs
+  | [], _ => by
+    simp only [paid, paidIn]
+    clear hn
+    induction ks with
+    | nil => rfl
+    | cons k t ih => simp [sumMap, ih]
+  | o :: t, i => by
+    simp only [paid, paidIn]
+    rw [sumMap_add, sum_paid hn t (i + 1)]
+    congr 1
+    by_cases c : i = 0 ∧ o.amount = 0
+    · simp only [c, and_self, true_or, if_true]
+      clear hn
+      induction ks with
+      | nil => rfl
+      | cons k t ih => simp [sumMap, ih]
+    · simp only [c, false_or]
+      have : (fun k => if o.program ≠ k then 0 else o.amount) = (fun k => if o.program = k then o.amount else 0) := by
+        funext k; by_cases e : o.program = k <;> simp [e]
+      rw [this, sumMap_indicator _ _ hn]
+      by_cases m : o.program ∈ ks <;> simp [m]
+
+theorem unpaid_zero (ks : List Key) : ∀ (outs : List COut) (i : Nat), (∀ k, k ∉ ks → paid k i outs = 0) → unpaid ks i outs = 0
+  | [], _, _ => rfl
+  | o :: t, i, h => by
+    simp only [unpaid]
+    have ht : ∀ k, k ∉ ks → paid k (i + 1) t = 0 := by
+      intro k hk; have := h k hk; simp only [paid] at this; omega
+    rw [unpaid_zero ks t (i + 1) ht]
+    by_cases c : i = 0 ∧ o.amount = 0
+    · simp [c]
+    · by_cases m : o.program ∈ ks
+      · simp [c, m]
+      · have := h o.program m
+        simp only [paid, c, ne_eq, not_true_eq_false, or_self, if_false] at this
+        simp only [c, m, not_false_eq_true, or_true, if_true]; omega
+
+theorem sum_table : ∀ {m : KMap}, (kkeys m).Nodup → sumMap (fun k => (kget m k).getD 0) (kkeys m) = totalTable m
+  | [], _ => rfl
+  | (k, v) :: t, hn => by
+    simp only [kkeys, List.map_cons, List.nodup_cons] at hn
+    simp only [kkeys, List.map_cons, sumMap, totalTable, kget, if_true, Option.getD_some]
+    congr 1
+    rw [← sum_table (m := t) hn.2]
+    apply sumMap_congr
+    intro k' hk'
+    have : ¬ k = k' := fun c => hn.1 (c ▸ hk')
+    simp [this]
+
+/-- **No extra money at an epoch boundary**: an accepted first-of-epoch coinbase creates in
+    total exactly the sum of the reward table (no-wrap fact from C01 as in
+    `first_pays_table_exact`). Together with `nonfirst_pays_nothing` and C01's
+    `coinbase_tx_exact` (a coinbase transaction creates exactly its outputs): the only BTM ever
+    created after genesis are the accumulated tables. -/
+theorem first_block_total {p : Params} {h : Nat} {hasTx : Bool} {outs : List COut} {rewards : KMap}
+    (hok : checkCoinbaseAmount p h hasTx outs rewards = .ok ()) (hh : h % p.epoch = 1)
+    (hn : (kkeys rewards).Nodup) (hz : ∀ e ∈ rewards, e.2 ≠ 0) (hsum : ∀ k, paid k 0 outs < u64) :
+    totalOut outs = totalTable rewards := by
+  have hp := first_pays_table_exact hok hh hn hz hsum
+  have hun : unpaid (kkeys rewards) 0 outs = 0 := by
+    apply unpaid_zero
+    intro k hk
+    rw [hp k, (kget_none_iff _ _).mpr hk]; rfl
+  rw [totalOut_split (kkeys rewards) outs 0, hun, Nat.add_zero, ← sum_paid hn outs 0, ← sum_table hn]
+  exact sumMap_congr (fun k _ => hp k)
+
+/-- a block that is not first of its epoch creates nothing -/
+theorem nonfirst_total {p : Params} {h : Nat} {hasTx : Bool} {outs : List COut} {rewards : KMap}
+    (hok : checkCoinbaseAmount p h hasTx outs rewards = .ok ()) (hh : h % p.epoch ≠ 1) : totalOut outs = 0 := by
+  obtain ⟨o, ho, ha, _⟩ := nonfirst_pays_nothing hok hh
+  subst ho; simp [totalOut, ha]
+
+/-! ### totals over an epoch: the table's total is what the epoch's blocks earned -/
+
+theorem totalTable_kset : ∀ (m : KMap) (k : Key) (v : Nat),
+    totalTable (kset m k v) + (kget m k).getD 0 = totalTable m + v
+  | [], k, v => by simp [kset, kget, totalTable]
+  | (b, w) :: t, k, v => by
+    by_cases e : b = k
+    · simp only [kset, kget, e, if_true, totalTable, Option.getD_some]; omega
+    · simp only [kset, kget, e, if_false, totalTable]
+      have := totalTable_kset t k v
+      omega
+
+theorem totalTable_kadd (m : KMap) (k : Key) (x : Nat) (h : (kget m k).getD 0 + x < u64) :
+    totalTable (kadd m k x) = totalTable m + x := by
+  have := totalTable_kset m k (((kget m k).getD 0 + x) % u64)
+  rw [Nat.mod_eq_of_lt h] at this
+  unfold kadd; rw [Nat.mod_eq_of_lt h]; omega
+
+theorem total_fold_fees (P : Key) : ∀ (txs : List CTx) (m : KMap), (kget m P).getD 0 + feeSum txs < u64 →
+    totalTable (txs.foldl (fun m tx => kadd m P tx.fee) m) = totalTable m + feeSum txs ∧
+    (kget (txs.foldl (fun m tx => kadd m P tx.fee) m) P).getD 0 = (kget m P).getD 0 + feeSum txs
+  | [], m, _ => by simp [feeSum]
+  | t :: r, m, h => by
+    simp only [feeSum] at h
+    simp only [List.foldl, feeSum]
+    have h1 : (kget m P).getD 0 + t.fee < u64 := by omega
+    have hg : (kget (kadd m P t.fee) P).getD 0 = (kget m P).getD 0 + t.fee := by
+      rw [kget_kadd_same]; simp [Nat.mod_eq_of_lt h1]
+    obtain ⟨a, b⟩ := total_fold_fees P r (kadd m P t.fee) (by rw [hg]; omega)
+    rw [a, b, totalTable_kadd m P t.fee h1, hg]
+    constructor <;> omega
+
+/-- everything the run of blocks earned (TRUE sum of fees + subsidies) -/
+def earnedAll : List (CBlock × Nat) → Nat
+  | [] => 0
+  | (b, sub) :: t => feeSum b.txs + sub + earnedAll t
+
+/-- **the table total grows by exactly fees + subsidies** (as long as no entry wraps uint64) -/
+theorem table_total {p : Params} : ∀ {bs : List (CBlock × Nat)} {c c' : Checkpoint},
+    grow p c bs = .ok c' → Bounded c.rewards → (kkeys c.rewards).Nodup →
+    (∀ k, (kget c.rewards k).getD 0 + earned k bs < u64) →
+    totalTable c'.rewards = totalTable c.rewards + earnedAll bs
+  | [], c, c', h, _, _, _ => by
+    simp only [grow] at h; injection h with h; subst h; simp [earnedAll]
+  | (b, sub) :: t, c, c', h, hb, hn, hw => by
+    simp only [grow] at h
+    split at h
+    · rename_i c1 h1
+      obtain ⟨P, hP, a1, a2, a3, a4⟩ := reward_step h1 hb hn
+      have hwP := hw P
+      simp only [earned, hP, if_true] at hwP
+      have hno : (kget c.rewards P).getD 0 + feeSum b.txs + sub < u64 := by omega
+      have a1' : (kget c1.rewards P).getD 0 = (kget c.rewards P).getD 0 + feeSum b.txs + sub := by
+        rw [a1, Nat.mod_eq_of_lt hno]
+      -- total after this block
+      have hstep : totalTable c1.rewards = totalTable c.rewards + feeSum b.txs + sub := by
+        have hr := (increase_rewards h1).1
+        unfold applyValidatorReward at hr
+        split at hr
+        · cases hr
+        · cases hr
+        · rename_i t0 ts o rest ht ho
+          injection hr with hr
+          have hPo : o.program = P := by
+            have : scriptOf b = some o.program := by simp [scriptOf, ho]
+            rw [hP] at this; injection this with this; exact this.symm
+          obtain ⟨f1, f2⟩ := total_fold_fees o.program b.txs c.rewards (by rw [hPo]; omega)
+          rw [← hr, totalTable_kadd _ _ _ (by rw [f2, hPo]; omega), f1]
+      have hw' : ∀ k, (kget c1.rewards k).getD 0 + earned k t < u64 := by
+        intro k
+        by_cases e : P = k
+        · subst e; rw [a1']; omega
+        · rw [a2 k e]
+          have hk := hw k
+          have : scriptOf b ≠ some k := by rw [hP]; intro c; injection c with c; exact e c
+          simp only [earned, this, if_false, Nat.zero_add] at hk
+          exact hk
+      rw [table_total h a3 a4 hw', hstep]; simp only [earnedAll]; omega
+    · cases h
+    · cases h
+
+/-- **History step of the supply argument**: the first block of the next epoch, if accepted,
+    creates in total exactly what the finished epoch's blocks earned (fees + subsidies). -/
+theorem epoch_payout_total {p : Params} {parent c' : Checkpoint} {bs : List (CBlock × Nat)}
+    {h : Nat} {hasTx : Bool} {outs : List COut}
+    (hg : grow p (newCheckpoint parent) bs = .ok c') (hw : ∀ k, earned k bs < u64)
+    (hok : checkCoinbaseAmount p h hasTx outs c'.rewards = .ok ()) (hh : h % p.epoch = 1)
+    (hz : ∀ e ∈ c'.rewards, e.2 ≠ 0) (hsum : ∀ k, paid k 0 outs < u64) :
+    totalOut outs = earnedAll bs := by
+  obtain ⟨_, _, hn⟩ := epoch_table hg
+  rw [first_block_total hok hh hn hz hsum]
+  have := table_total hg (by simp [newCheckpoint]; exact bounded_nil) (by simp [newCheckpoint, kkeys])
+    (by intro k; simpa [newCheckpoint, kget] using hw k)
+  simpa [newCheckpoint, totalTable] using this
+
 /-! ### the proposer's coinbase passes the validator -/
 
 def mkOut (e : Key × Nat) : COut := { original := true, btm := true, amount := e.2, program := e.1 }
